@@ -177,6 +177,9 @@ func Dial(cfg Cfg) (*Conn, error) {
 		c.src, c.dst = peer6, stack6
 		np = ipv6.ProtocolNumber
 	}
+	// let the small buffer sizes of the scripts really apply (the stack-wide minimum is 4096)
+	n.S.SetTransportProtocolOption(tcp.ProtocolNumber, tcp.ReceiveBufferSizeOption{Min: 64, Default: tcp.DefaultBufferSize, Max: 4 << 20})
+	n.S.SetTransportProtocolOption(tcp.ProtocolNumber, tcp.SendBufferSizeOption{Min: 64, Default: tcp.DefaultBufferSize, Max: 4 << 20})
 	c.WQ = &waiter.Queue{}
 	ep, err := n.S.NewEndpoint(tcp.ProtocolNumber, np, c.WQ)
 	if err != nil {
@@ -300,7 +303,7 @@ func wsegs(l []tcp.VerifWSeg, ctor string) string {
 		if i > 0 {
 			sb.WriteByte(';')
 		}
-		fmt.Fprintf(&sb, "%s %d %d %s", ctor, w.Seq, w.Flags, netx.ZList(w.Data))
+		fmt.Fprintf(&sb, "%s %d %d %s", ctor, w.Seq, w.Flags, ZL(w.Data))
 	}
 	sb.WriteByte(']')
 	return sb.String()
@@ -323,7 +326,7 @@ func estate(v tcp.VerifState) int {
 func CoqState(v tcp.VerifState) string {
 	rl := make([]string, len(v.RcvList))
 	for i, b := range v.RcvList {
-		rl[i] = netx.ZList(b)
+		rl[i] = ZL(b)
 	}
 	r := fmt.Sprintf("(mkRcvr %d %d %d %s %s %d %d)", v.RcvNxt, v.RcvAcc, v.RcvWndScale, netx.B(v.RClosed),
 		wsegs(v.Pending, "mkP"), v.PendUsed, v.PendSize)
@@ -344,7 +347,7 @@ func CoqFrames(fr []netx.TCPSeg) string {
 		if i > 0 {
 			sb.WriteByte(';')
 		}
-		fmt.Fprintf(&sb, "mkF %d %d %d %d %s", f.Seq, f.Ack, f.Flags, f.Wnd, netx.ZList(f.Payload))
+		fmt.Fprintf(&sb, "mkF %d %d %d %d %s", f.Seq, f.Ack, f.Flags, f.Wnd, ZL(f.Payload))
 	}
 	sb.WriteByte(']')
 	return sb.String()
@@ -365,5 +368,5 @@ func CoqSeg(t netx.TCPSeg) string {
 			}
 		}
 	}
-	return fmt.Sprintf("(mkSeg %d %d %d %d %s %s %s)", t.Seq, t.Ack, t.Flags, t.Wnd, netx.ZList(t.Payload), netx.B(ts), netx.B(tsecr))
+	return fmt.Sprintf("(mkSeg %d %d %d %d %s %s %s)", t.Seq, t.Ack, t.Flags, t.Wnd, ZL(t.Payload), netx.B(ts), netx.B(tsecr))
 }
